@@ -189,7 +189,7 @@ FP = ('MVoro.Proofs.FacesProofs', 'MVoro.FacesProofs')
 def fp(name, orig, doc): return (name, FP[0], FP[1], orig, doc)
 TS = ('MVoro.Proofs.Misc', 'MVoro.TypeStateProofs')
 def ts(name, orig, doc): return (name, TS[0], TS[1], orig, doc)
-prop('C15', 'extracted vertices and face polygons form a valid convex polytope', ['MVoro.Proofs.FacesProofs', 'MVoro.Proofs.Misc', 'MVoro.Proofs.GeomHelpers', 'MVoro.Proofs.Euler'], [
+prop('C15', 'extracted vertices and face polygons form a valid convex polytope', ['MVoro.Proofs.FacesProofs', 'MVoro.Proofs.Misc', 'MVoro.Proofs.GeomHelpers', 'MVoro.Proofs.Euler', 'MVoro.Proofs.EulerClip', 'MVoro.Proofs.LinkClip', 'MVoro.Proofs.EulerReach', 'MVoro.Proofs.ReachAll'], [
   gh('vertex_on_its_three_planes', 'intersectPlanes_on', 'T15.1 `Vertex::from_dual` = intersect_planes of the three listed planes lies on all three (exact arithmetic, det != 0)'),
   fp('ordering_is_a_permutation', 'sortFaceVertices_perm', 'T15.2a whenever `sort_face_vertices` succeeds its result is a permutation of the vertices collected for the plane: no vertex is lost or duplicated by the ordering'),
   fp('vertex_listed_per_occurrence', 'count_collected', 'T15.2b vertex i is collected under plane p exactly as often as p occurs in its dual triple'),
@@ -202,5 +202,12 @@ prop('C15', 'extracted vertices and face polygons form a valid convex polytope',
   ('interior_planes_vanish', 'MVoro.Proofs.Euler', 'MVoro.Euler', 'interior_gone', 'T15.3 a plane of the removed region that is not on its boundary cycle has ALL its triples in the removed region, if the triples at that plane form a single umbrella (link connected): the face vanishes from the cell'),
   ('plane_survives_iff_not_interior', 'MVoro.Proofs.Euler', 'MVoro.Euler', 'plane_survives_iff', 'T15.3 a face of the cell is still a face after the clip iff it is not interior to the removed region'),
   ('new_plane_is_a_face', 'MVoro.Proofs.Euler', 'MVoro.Euler', 'new_plane_present', 'T15.3 the new plane is a face of the clipped cell'),
-  ('euler_preserved_by_clip', 'MVoro.Proofs.Euler', 'MVoro.Euler', 'euler_arith', 'T15.3 bookkeeping: V vertices, F faces, k removed vertices, b new vertices, m vanished faces with the disc relation 2m + b = k + 2 keep V + 4 = 2F, i.e. V - E + F = 2 with E = 3V/2'),
+  ('euler_bookkeeping', 'MVoro.Proofs.Euler', 'MVoro.Euler', 'euler_arith', 'T15.3 bookkeeping: V vertices, F faces, k removed vertices, b new vertices, m vanished faces with the disc relation 2m + b = k + 2 keep V + 4 = 2F, i.e. V - E + F = 2 with E = 3V/2'),
+  ('removed_region_is_a_disc', 'MVoro.Proofs.EulerClip', 'MVoro.EulerClip', 'disc_relation', 'T15.3 every removed region on which the greedy boundary reconstruction succeeds satisfies the Euler relation of a disc, 2m + b = k + 2 (induction over the greedy run: an inserted triangle adds a boundary vertex - a NEW plane, by interior_gone - a closed corner turns a boundary vertex into an interior one)'),
+  ('euler_preserved_by_clip', 'MVoro.Proofs.EulerClip', 'MVoro.EulerClip', 'euler_preserved', 'T15.3 V + 4 = 2F (V - E + F = 2) for the cell implies it for the clipped cell, for link-connected closed surfaces'),
+  ('no_pinched_plane_after_clip', 'MVoro.Proofs.LinkClip', 'MVoro.LinkClip', 'linkConn_preserved', 'T15.2/T15.3 link-connectedness (the vertices of every face form ONE umbrella / cycle - no pinched face) is preserved by a clip whose boundary is a single injective cycle'),
+  ('clip_keeps_all_combinatorial_invariants', 'MVoro.Proofs.EulerReach', 'MVoro.EulerReach', 'cstep_good', 'T15.3 closed surface, no repeated vertex, three different planes per vertex, one umbrella per plane, Euler: all preserved by every successful clip'),
+  ('start_box_good', 'MVoro.Proofs.EulerReach', 'MVoro.EulerReach', 'box8_good', 'T15.3 the eight dual triples of ConvexCell::init satisfy them (8 + 4 = 2 * 6)'),
+  ('euler_for_every_reachable_cell', 'MVoro.Proofs.EulerReach', 'MVoro.EulerReach', 'euler_reach', 'T15.3 at full strength for the combinatorial model: every surface reachable from the start box by successful clips satisfies V - E + F = 2 and has no pinched plane'),
+  ('all_invariants_for_every_reachable_cell', 'MVoro.Proofs.ReachAll', 'MVoro.ReachAll', 'reachable_all', 'T15/T01.4/T10.5 combined: every cell reachable from the start cell by exact clips is geometrically good (vertices on their planes, positively oriented, inside all half spaces, closed surface) and combinatorially good (Euler, no pinched plane)'),
 ])
